@@ -39,6 +39,7 @@ const (
 	aHeapField
 	aCell
 	aGlobal
+	aGlobalRO
 )
 
 // Cx collects declarations for one verification unit (one function, one mode).
@@ -65,6 +66,7 @@ type Cx struct {
 	nfresh   int
 	axioms   []string
 	lemmasUsed []string
+	inInit   bool
 }
 
 type foldInfo struct {
@@ -418,6 +420,7 @@ func (cx *Cx) binop(op token.Token, a, b string, t types.Type, rt types.Type) st
 		case token.NEQ:
 			return fmt.Sprintf("(not (= %s %s))", a, b)
 		case token.ADD:
+			cx.declCat()
 			return fmt.Sprintf("(s_cat %s %s)", a, b)
 		}
 		panic(unsupported("string operator " + op.String()))
@@ -573,4 +576,26 @@ func sortedInts(m map[int]bool) []int {
 	}
 	sort.Ints(ks)
 	return ks
+}
+
+func (cx *Cx) declCat() {
+	is := cx.intSort()
+	le, lt, plus, minus := "<=", "<", "+", "-"
+	if cx.bv {
+		le, lt, plus, minus = "bvsle", "bvslt", "bvadd", "bvsub"
+	}
+	cx.declUF("ax_s_cat", fmt.Sprintf("(assert (forall ((a Str) (b Str)) (! (= (s_len (s_cat a b)) (%s (s_len a) (s_len b))) :pattern ((s_cat a b)))))\n(assert (forall ((a Str) (b Str) (i %s)) (! (= (s_at (s_cat a b) i) (ite (%s i (s_len a)) (s_at a i) (s_at b (%s i (s_len a))))) :pattern ((s_at (s_cat a b) i)))))", plus, is, lt, minus))
+	cx.declByteStr()
+	_ = le
+}
+
+// declByteStr: string(b) for an integer b is the UTF-8 encoding of code point b: one byte below 0x80,
+// two bytes below 0x800 (larger values are left unspecified).
+func (cx *Cx) declByteStr() {
+	is := cx.intSort()
+	if cx.bv {
+		cx.declUF("ax_s_byte", fmt.Sprintf("(assert (forall ((b %s)) (! (and (=> (bvult b (_ bv128 64)) (and (= (s_len (s_byte b)) (_ bv1 64)) (= (s_at (s_byte b) (_ bv0 64)) b))) (=> (and (bvuge b (_ bv128 64)) (bvult b (_ bv2048 64))) (and (= (s_len (s_byte b)) (_ bv2 64)) (= (s_at (s_byte b) (_ bv0 64)) (bvor (_ bv192 64) (bvlshr b (_ bv6 64)))) (= (s_at (s_byte b) (_ bv1 64)) (bvor (_ bv128 64) (bvand b (_ bv63 64))))))) :pattern ((s_byte b)))))", is))
+		return
+	}
+	cx.declUF("ax_s_byte", "(assert (forall ((b Int)) (! (and (=> (and (<= 0 b) (< b 128)) (and (= (s_len (s_byte b)) 1) (= (s_at (s_byte b) 0) b))) (=> (and (<= 128 b) (< b 2048)) (and (= (s_len (s_byte b)) 2) (= (s_at (s_byte b) 0) (+ 192 (div b 64))) (= (s_at (s_byte b) 1) (+ 128 (mod b 64)))))) :pattern ((s_byte b)))))")
 }
